@@ -1,1 +1,351 @@
-/- C13: property theorems go here (only property theorems, non-vacuity examples, #print axioms). -/
+import StorageModel.Codec.CompoundKey
+import StorageModel.Codec.Fields
+/-
+  C13 — Stored values and compound keys round-trip.
+
+  "Every value of a supported type - string including the empty string, int32, int64, float64,
+  bool, time, null, string lists, nested maps and lists - written to a bucket is read back equal
+  (integers may widen to int64, times compare equal as instants, string lists come back as sorted
+  duplicate-free sets); null stays distinguishable from the empty string; and a write restricted
+  by a field checker touches only the fields the checker selects.  Encoding a list of strings as a
+  compound key and decoding it returns the same list, and distinct lists never share an encoding."
+
+  The theorems are about the executable model of boltz/encode.go, boltz/typed_bucket.go and the
+  PersistContext setters of boltz/base.go in `StorageModel/Codec/*` (compared with the real code on
+  every run by `bin/check C13`).  Hypotheses of the form `(… tb …).err = none` say "the write was
+  not refused" (bbolt refuses empty / oversized keys and value-vs-bucket conflicts); `put_succeeds`
+  and the `example`s show they are satisfiable.  Float bit patterns and marshalled times are
+  opaque payloads: that `math.Float64frombits ∘ Float64bits` and `UnmarshalBinary ∘ MarshalBinary`
+  are identities (the latter up to the instant) is Go's, not proved here.
+-/
+namespace StorageModel.Properties.C13
+open StorageModel StorageModel.Codec
+
+/-! ## compound keys (boltz/encode.go) -/
+
+/-- LEB128 as `encoding/binary` does it: every uint64 is read back, with the number of bytes
+    consumed, whatever follows. -/
+theorem uvarint_roundtrip (y : Nat) (rest : Bytes) (hy : y < 2 ^ 64) :
+    uvarint (putUvarint y ++ rest) = (y, ((putUvarint y).length : Int)) :=
+  uvarint_put y rest hy
+
+/-- **round trip**: a list whose elements respect `MaxLinkedSetKeySize` is encoded, and decoding the
+    encoding returns the same list — for every list of byte strings. -/
+theorem compound_roundtrip (xs : List Bytes) (h : AllWithin xs) :
+    ∃ e, encodeStringSlice xs = .ok e ∧ decodeStringSlice e = .ok xs := by
+  refine ⟨encodeSpec xs, ?_, ?_⟩
+  · simpa [encodeStringSlice] using encodeFrom_ok xs h []
+  · simpa [decodeStringSlice] using decodeLoop_encoded xs h _ [] (Nat.le_refl _)
+
+/-- **rejection over the limit**: one element longer than 4096 bytes and the list is refused. -/
+theorem compound_rejects (xs : List Bytes) (h : ∃ x ∈ xs, x.length > maxLinkedSetKeySize) :
+    encodeStringSlice xs = .error .encodeTooLong :=
+  encodeFrom_err xs h []
+
+/-- **injectivity**: distinct lists never share an encoding. -/
+theorem compound_injective (xs ys : List Bytes) (e : Bytes)
+    (hx : encodeStringSlice xs = .ok e) (hy : encodeStringSlice ys = .ok e) : xs = ys := by
+  have within : ∀ zs : List Bytes, encodeStringSlice zs = .ok e → AllWithin zs := by
+    intro zs hz x hxm
+    apply Classical.byContradiction
+    intro hgt
+    have := compound_rejects zs ⟨x, hxm, by omega⟩
+    rw [this] at hz; cases hz
+  obtain ⟨e1, h1, d1⟩ := compound_roundtrip xs (within xs hx)
+  obtain ⟨e2, h2, d2⟩ := compound_roundtrip ys (within ys hy)
+  rw [hx] at h1; rw [hy] at h2
+  injection h1 with h1; injection h2 with h2
+  subst h1; subst h2
+  rw [d1] at d2
+  injection d2
+
+/-- the decoder refuses a component that claims more than the limit … -/
+theorem decodeNext_rejects_over_limit (v rest : Bytes) (hv : v.length > maxLinkedSetKeySize) (hl : v.length < 2 ^ 64) :
+    decodeNext (putUvarint v.length ++ v ++ rest) = .error .decodeTooLong := by
+  have hu := uvarint_put v.length (v ++ rest) hl
+  have hpos := putUvarint_length_pos v.length
+  simp only [decodeNext, List.append_assoc, hu]
+  have h1 : ¬ (((putUvarint v.length).length : Int) < 1) := by omega
+  simp [h1, hv]
+
+/-- … and accepts one of exactly the limit (the comparison is `>`, not `>=`). -/
+theorem decodeNext_accepts_limit (v rest : Bytes) (hv : v.length = maxLinkedSetKeySize) :
+    decodeNext (putUvarint v.length ++ v ++ rest) = .ok (v, rest) :=
+  decodeNext_encoded v rest (by omega)
+
+example : AllWithin [[], [1, 2], List.replicate 4096 7] := by
+  intro x hx
+  simp only [List.mem_cons, List.mem_nil_iff, or_false] at hx
+  rcases hx with rfl | rfl | rfl
+  · decide
+  · decide
+  · rw [List.length_replicate]; decide
+
+/-! ## scalar values (boltz/typed_bucket.go Set*/Get*) -/
+
+/-- a string — the empty one included — is read back as itself, never as null. -/
+theorem string_roundtrip (tb : TB) (name s : Bytes) (chk : Checker)
+    (hp : proceedWithSet tb name chk = true) (hok : (setString tb name s chk).err = none) :
+    getString (setString tb name s chk).es name = .str s := by
+  simp only [setString, hp, if_true, setTyped_some typeString_ne_nil] at hok ⊢
+  rw [put_es hok]
+  simp only [getString, getTyped_ins_self, fieldToString, if_true]
+  cases s <;> simp [bytesToString, obytes]
+
+theorem stringP_roundtrip (tb : TB) (name : Bytes) (s : Option Bytes) (chk : Checker)
+    (hp : proceedWithSet tb name chk = true) (hok : (setStringP tb name s chk).err = none) :
+    getString (setStringP tb name s chk).es name = (match s with | none => .nil | some v => .str v) := by
+  cases s with
+  | none =>
+    simp only [setStringP, hp, if_true, setNil_eq (proceed_err hp)] at hok ⊢
+    rw [put_es hok]
+    have : getTyped (ins tb.es name (.val [typeNil])) name = (typeNil, none) := by
+      simp [getTyped, bget_ins_self, getTypeAndValue]
+    simp only [getString, this]
+    rfl
+  | some v =>
+    simp only [setStringP, hp, if_true, setTyped_some typeString_ne_nil] at hok ⊢
+    rw [put_es hok]
+    simp only [getString, getTyped_ins_self, fieldToString, if_true]
+    cases v <;> simp [bytesToString, obytes]
+
+/-- **null stays distinguishable from the empty string**: after writing null every getter answers
+    nil, after writing "" `GetString` answers the (non-nil) empty string. -/
+theorem nil_distinct (tb : TB) (name : Bytes) (chk : Checker) (hp : proceedWithSet tb name chk = true)
+    (hok1 : (setStringP tb name none chk).err = none) (hok2 : (setString tb name [] chk).err = none) :
+    getString (setStringP tb name none chk).es name = .nil ∧
+    getString (setString tb name [] chk).es name = .str [] ∧
+    StrRead.nil ≠ StrRead.str [] :=
+  ⟨stringP_roundtrip tb name none chk hp hok1, string_roundtrip tb name [] chk hp hok2, by simp⟩
+
+theorem int32_roundtrip (tb : TB) (name : Bytes) (i : Int) (chk : Checker) (hi : InInt32 i)
+    (hp : proceedWithSet tb name chk = true) (hok : (setInt32 tb name i chk).err = none) :
+    getInt32 (setInt32 tb name i chk).es name = some i := by
+  simp only [setInt32, hp, if_true] at hok ⊢
+  rw [put_es hok]
+  exact getInt32_stored tb.es name i hi
+
+/-- an int32 read through the int64 getter widens to the same number. -/
+theorem int32_widens (tb : TB) (name : Bytes) (i : Int) (chk : Checker) (hi : InInt32 i)
+    (hp : proceedWithSet tb name chk = true) (hok : (setInt32 tb name i chk).err = none) :
+    getInt64 (setInt32 tb name i chk).es name = some i := by
+  simp only [setInt32, hp, if_true] at hok ⊢
+  rw [put_es hok]
+  unfold getInt64
+  rw [show int32ToBytes i = typeInt32 :: encInt32 i from rfl, getTyped_ins_self]
+  simp [fieldToInt64, encInt32_ne_nil, bytesToInt32_enc i hi]
+
+theorem int64_roundtrip (tb : TB) (name : Bytes) (i : Int) (chk : Checker) (hi : InInt64 i)
+    (hp : proceedWithSet tb name chk = true) (hok : (setInt64 tb name i chk).err = none) :
+    getInt64 (setInt64 tb name i chk).es name = some i := by
+  simp only [setInt64, hp, if_true] at hok ⊢
+  rw [put_es hok]
+  unfold getInt64
+  rw [getTyped_ins_self]
+  have e : typeInt64 ≠ typeInt32 := by decide
+  simp [fieldToInt64, e, encInt64_ne_nil, bytesToInt64_enc i hi]
+
+/-- the 64 bits of a float (±0, ±Inf, NaN payloads, denormals alike) come back unchanged. -/
+theorem float64_roundtrip (tb : TB) (name : Bytes) (bits : Nat) (chk : Checker) (hb : bits < 2 ^ 64)
+    (hp : proceedWithSet tb name chk = true) (hok : (setFloat64 tb name bits chk).err = none) :
+    getFloat64 (setFloat64 tb name bits chk).es name = some (.bits bits) := by
+  simp only [setFloat64, hp, if_true] at hok ⊢
+  rw [put_es hok]
+  unfold getFloat64
+  rw [getTyped_ins_self]
+  have e1 : ¬ (typeFloat64 = typeInt32 ∨ typeFloat64 = typeInt64) := by decide
+  simp [fieldToFloat64, e1, le8_ne_nil, bytesToFloat64_le bits hb]
+
+theorem bool_roundtrip (tb : TB) (name : Bytes) (b : Bool) (chk : Checker)
+    (hp : proceedWithSet tb name chk = true) (hok : (setBool tb name b chk).err = none) :
+    getBool (setBool tb name b chk).es name = some b := by
+  simp only [setBool, hp, if_true] at hok ⊢
+  rw [put_es hok]
+  unfold getBool
+  rw [getTyped_ins_self]
+  cases b <;> simp [fieldToBool, bytesToBool]
+
+/-- the marshalled UTC instant comes back byte for byte (so the time read compares equal as an
+    instant, given Go's `UnmarshalBinary ∘ MarshalBinary`). -/
+theorem time_roundtrip (tb : TB) (name p : Bytes) (chk : Checker) (hne : p ≠ [])
+    (hp : proceedWithSet tb name chk = true) (hok : (setTime tb name p chk).err = none) :
+    getTime (setTime tb name p chk).es name = some p := by
+  simp only [setTime, hp, if_true, setTyped_some typeTime_ne_nil] at hok ⊢
+  rw [put_es hok]
+  unfold getTime
+  rw [getTyped_ins_self]
+  simp [fieldToDatetime, bytesToDatetime, hne]
+
+/-- the success hypotheses above are satisfiable on every bucket: a plain value is accepted under
+    any non-empty key of at most `MaxKeySize` bytes that does not name a child bucket. -/
+theorem scalar_write_succeeds (tb : TB) (name v : Bytes) (hw : Writable tb.es name) (he : tb.err = none) :
+    (tb.apply (bput tb.es name v)).err = none := by
+  rw [bput_of_writable v hw]; exact he
+
+/-! ## string lists -/
+
+/-- `sortDedup xs` is *the* sorted duplicate-free list of the members of `xs`. -/
+theorem strlist_sorted_dupfree (xs : List Bytes) :
+    (sortDedup xs).Pairwise (· < ·) ∧ (sortDedup xs).Nodup ∧ ∀ y, y ∈ sortDedup xs ↔ y ∈ xs := by
+  refine ⟨sortDedup_sorted xs, ?_, mem_sortDedup xs⟩
+  exact (sortDedup_sorted xs).imp (fun h e => by subst e; exact List.lt_irrefl _ h)
+
+/-- a string list comes back as the sorted duplicate-free set of its members. -/
+theorem strlist_roundtrip (tb : TB) (name : Bytes) (xs : List Bytes) (chk : Checker)
+    (hp : proceedWithSet tb name chk = true) (hok : (setStringList tb name xs chk).err = none) :
+    getStringList (setStringList tb name xs chk).es name = some (sortDedup xs) := by
+  simp only [setStringList, hp, if_true] at hok ⊢
+  obtain ⟨es', h1, h2, _⟩ := apply_err_none hok
+  obtain ⟨child, hc, hes⟩ := setStringListRaw_shape h1
+  rw [h2, hes]
+  simp only [getStringList, bbucket_ins_self, Option.map_some]
+  obtain ⟨hs, ht, hm⟩ := setListEntries_spec xs [] child hc sorted_nil (fun k hk => by simp [keys] at hk)
+  congr 1
+  rw [readStringList_eq]
+  apply sorted_ext _ _ (pairwise_untag _ hs ht) (sortDedup_sorted xs)
+  intro y
+  rw [mem_untag _ ht, hm y, mem_sortDedup]
+  simp [keys]
+
+/-- a string list whose elements (with their type byte) fit a bbolt key is accepted under any
+    non-empty name that does not hold a plain value. -/
+theorem strlist_write_succeeds (tb : TB) (name : Bytes) (xs : List Bytes) (chk : Checker)
+    (hlen : ∀ x ∈ xs, x.length < maxKeySize) (hw : BucketWritable tb.es name) (he : tb.err = none) :
+    (setStringList tb name xs chk).err = none := by
+  unfold setStringList
+  split
+  · obtain ⟨child, hc⟩ := setListEntries_ok xs [] hlen (fun k c => by simp)
+    simp [setStringListRaw, emptyBucket_of_writable hw, hc, TB.apply, he]
+  · exact he
+
+/-! ## nested maps and lists -/
+
+/-- **nested round trip**: whatever supported value — scalars, maps and lists nested to any depth,
+    nulls and empty containers inside — `setMarshaled` accepts under a key, `getMarshaled` reads
+    back as `normalize v` (Go `int` widened to int64, map entries in key order). -/
+theorem value_roundtrip (v : Value) (es es' : Bkt) (name : Bytes) (a : Bool)
+    (h : setMarshaled es name v a = .ok es') (hs : supported v = true) :
+    getMarshaled es' name = .ok (normalize v) := by
+  obtain ⟨n, hn, hr⟩ := setMarshaled_spec v es name a es' h hs
+  simp [getMarshaled, hn, look_ins_self, hr]
+
+/-- `PutMap` then `GetMap`, under any checker that selects the field, nested or flat. -/
+theorem map_roundtrip (tb : TB) (name : Bytes) (kvs : List (Bytes × Value)) (chk : Checker) (a : Bool)
+    (hs : supportedKvs kvs = true)
+    (hp : proceedWithSet tb name chk = true) (hok : (putMap tb name kvs chk a).err = none) :
+    getMap (putMap tb name kvs chk a).es name = .ok (normalize (.map kvs)) := by
+  simp only [putMap, hp, if_true] at hok ⊢
+  obtain ⟨es', h1, h2, _⟩ := apply_err_none hok
+  obtain ⟨child, hc, hes⟩ := putMapRaw_shape h1
+  rw [h2, hes]
+  have hspec := putEntries_spec kvs [] [] a child hc hs rfl rfl
+  simp [getMap, bbucket_ins_self, hspec.1, mapFrom, seqKvs_okify, Res.map, normalize]
+
+/-- `PutList` then `GetList`. -/
+theorem list_roundtrip (tb : TB) (name : Bytes) (xs : List Value) (chk : Checker)
+    (hs : supported (.list xs) = true)
+    (hp : proceedWithSet tb name chk = true) (hok : (putList tb name xs chk).err = none) :
+    getList (putList tb name xs chk).es name = .ok (some (normalize (.list xs))) := by
+  simp only [putList, hp, if_true] at hok ⊢
+  obtain ⟨es', h1, h2, _⟩ := apply_err_none hok
+  rw [h2]
+  rw [← setMarshaled_list] at h1
+  obtain ⟨n, hn, hr⟩ := setMarshaled_spec (.list xs) tb.es name true es' h1 hs
+  obtain ⟨child, child', _, _, hes⟩ := putListRaw_shape (by rw [← setMarshaled_list]; exact h1)
+  have hnode : n = .sub child' := by
+    have := congrArg (fun l => look l name) (hn.symm.trans hes)
+    simpa [look_ins_self] using this
+  subst hnode
+  rw [hn]
+  simp only [getList, bbucket_ins_self]
+  simp only [readNode] at hr
+  cases hl : listSize child' with
+  | none =>
+    rw [hl] at hr
+    simp [mapFrom, normalize] at hr
+    cases hq : seqKvs (readEs child') <;> simp [hq, Res.map] at hr
+  | some sz =>
+    rw [hl] at hr
+    simp [hr, Res.map]
+
+/-- every well-keyed value is accepted under a fresh key of valid size: the success hypotheses of
+    the theorems above are satisfiable for all of them. -/
+theorem put_succeeds (v : Value) (es : Bkt) (name : Bytes) (hw : wellKeyed v = true)
+    (h1 : name ≠ []) (h2 : name.length ≤ maxKeySize) (h3 : look es name = none) :
+    ∃ es', setMarshaled es name v true = .ok es' :=
+  setMarshaled_ok v es name hw h1 h2 h3
+
+/-- `normalize` changes nothing a Go map can observe: with distinct keys every key still maps to
+    (the normalisation of) its value … -/
+theorem normalize_lookup (kvs : List (Bytes × Value)) (hn : (kvs.map Prod.fst).Nodup) (k : Bytes) :
+    look (normKvs kvs []) k = (look kvs k).map normalize := by
+  rw [normKvs_look kvs [] hn k]
+  cases look kvs k <;> rfl
+
+/-- … and the entries are in strictly increasing key order. -/
+theorem normalize_sorted (kvs : List (Bytes × Value)) : Sorted (normKvs kvs []) :=
+  normKvs_sorted kvs [] sorted_nil
+
+/-- The hypothesis `supported` is needed: a nested map that uses the reserved list-size key with an
+    int32 value is accepted and read back as a list. -/
+theorem reserved_key_breaks_roundtrip :
+    ∃ es', setMarshaled [] [109] (.map [([105], .map [(listSizeKey, .i32 1)])]) true = .ok es' ∧
+      getMarshaled es' [109] = .ok (.map [([105], .list [.nil])]) := by
+  refine ⟨_, rfl, ?_⟩
+  rfl
+
+/-! ## field checkers (ProceedWithSet, PersistContext setters) -/
+
+/-- a write whose field the checker does not select changes nothing at all. -/
+theorem checker_unselected_noop (tb : TB) (name : Bytes) (op : FieldOp) (f : Bytes → Bool)
+    (hf : f name = false) (hc : op.checked = true) : applyOp tb name op (some f) = tb :=
+  applyOp_unselected tb name op f hf hc
+
+/-- any field operation leaves every other key of the bucket (value or whole sub-tree) as it was. -/
+theorem write_touches_only_its_key (tb : TB) (name : Bytes) (op : FieldOp) (chk : Checker) (j : Bytes)
+    (hj : j ≠ name) : look (applyOp tb name op chk).es j = look tb.es j :=
+  applyOp_frame tb name op chk j hj
+
+/-- **an entity write restricted by a field checker touches only the fields the checker
+    selects**: whatever the sequence of field operations, a key the checker does not select holds
+    after the write exactly what it held before (absent stays absent). -/
+theorem persist_touches_only_selected (ops : List (Bytes × FieldOp)) (tb : TB) (f : Bytes → Bool) (j : Bytes)
+    (hf : f j = false) (hc : ∀ p ∈ ops, p.1 = j → p.2.checked = true) :
+    look (persist tb ops (some f)).es j = look tb.es j :=
+  persist_unselected ops tb f j hf hc
+
+/-- what a field holds after an entity write is what its last operation left (so the per-type
+    round trips above apply to it). -/
+theorem persist_selected_reads_back (pre post : List (Bytes × FieldOp)) (name : Bytes) (op : FieldOp)
+    (tb : TB) (chk : Checker) (hpost : ∀ p ∈ post, p.1 ≠ name) :
+    look (persist tb (pre ++ (name, op) :: post) chk).es name =
+      look (applyOp (persist tb pre chk) name op chk).es name := by
+  rw [persist_append]
+  simp only [persist]
+  exact persist_frame post _ chk name hpost
+
+/-- `MappedFieldChecker` (PersistContext.WithFieldOverrides): a field is selected iff the checker
+    selects the name it is mapped to (itself when unmapped). -/
+theorem mapped_checker_selects (f : Bytes → Bool) (m : List (Bytes × Bytes)) (field : Bytes) :
+    mappedChecker f m field = f ((look m field).getD field) := by
+  unfold mappedChecker
+  cases look m field <;> rfl
+
+/-! non-vacuity: a concrete entity write under a checker that selects one of two fields -/
+example :
+    let tb : TB := { es := [([97], .val [5, 120]), ([98], .val [2, 1, 0, 0, 0])] }
+    let chk : Checker := some (fun k => k == [98])
+    let tb' := persist tb [([97], .str [121]), ([98], .i32 7)] chk
+    tb'.err = none ∧ getString tb'.es [97] = .str [120] ∧ getInt64 tb'.es [98] = some 7 := by
+  decide
+
+example : wellKeyed (.map [([1], .list [.nil, .map []]), ([2], .str [])]) = true := by decide
+example : supported (.map [([1], .list [.nil, .i32 (-2147483648), .f64 (2 ^ 64 - 1)]), ([2], .time [1])]) = true := by decide
+
+end StorageModel.Properties.C13
+
+#print axioms StorageModel.Properties.C13.compound_roundtrip
+#print axioms StorageModel.Properties.C13.compound_injective
+#print axioms StorageModel.Properties.C13.value_roundtrip
+#print axioms StorageModel.Properties.C13.strlist_roundtrip
+#print axioms StorageModel.Properties.C13.persist_touches_only_selected
